@@ -1478,6 +1478,22 @@ where
                         }
                     },
                 };"""),
+    dict(id="c20-mirror-manager-runs-the-global-plugins", prop="C20", file="src/mirrors.rs", expect="C20-R3",
+         what="the mirror's connection manager is given the general plugins section (prewarm queries originate on the mirror connection)",
+         old="""            Arc::new(RwLock::new(None)),
+            None,
+            true,""", new="""            Arc::new(RwLock::new(None)),
+            config.plugins.clone(),
+            true,"""),
+    dict(id="c17-admin-shutdown-writes-before-the-signal", prop="C17", file="src/admin.rs", expect="C17-R2",
+         what="admin SHUTDOWN writes to the administrator (fallible, suspends) before it raises the signal",
+         old="""    let mut shutdown_success = "t";
+
+    let pid = std::process::id();""", new="""    let mut shutdown_success = "t";
+
+    write_all_half(stream, &res).await?;
+    res.clear();
+    let pid = std::process::id();"""),
     # ------------------------------------------------------------------ C11
     dict(id="c11-inline-client", prop="C11", file="src/main.rs", expect="C11-R1",
          what="client handled inline in the accept loop instead of its own task",
